@@ -30,6 +30,8 @@ TRUSTED = [
     "correspondence: vp/props/c17.py generators, harness/src/modes/aottext.rs, vp/shell_lex.py (python port of the "
     "machines, compared with the extracted machines on every run)",
     "modelled not verified: str::replace of Rust core (its specification is proved of the model), StyledStr::to_string",
+    "fish generator model Complete/FishModel.v + ocaml/fish_driver.ml (see C16): tied by stream fish-model, both files of "
+    "the script mode compared byte for byte",
 ]
 ASSUMPTIONS = [
     "strings are sequences of Unicode scalar values (Rust &str); scripts are read as UTF-8",
@@ -575,15 +577,21 @@ def classify_known(stream, case, impl, failure):
 
 
 TECHNIQUE = ("Coq proof (str::replace model + per-shell lexer machines: escaped text is transparent in its quoting "
-             "context) + extracted-model/implementation correspondence + token-skeleton oracle on the real scripts")
+             "context; for fish composed through a byte-exact generator model to whole-script structure invariance) + "
+             "extracted-model/implementation correspondence + token-skeleton oracle on the real scripts")
 LEVEL_TEXT = ("Machine-checked theorems (Coq 8.16, closed under the global context): a model of str::replace meets its "
               "specification; every escape function of the fish, zsh, PowerShell, elvish and nushell generators, as "
               "the composition of the .replace chains read off the current Rust source, is read back by the model of "
               "that shell's lexer -- for every string and every continuation -- as literal payload only, leaving the "
               "lexer in the state it was in, with the payload equal to the (newline-flattened) text; bash reads no "
-              "descriptive text.  The model is tied to clap_complete by running the extracted escape functions and the "
-              "real ones (hook) on the same strings on every check, and an independent oracle tokenises the real "
+              "descriptive text.  fish, whole script: in a byte-exact model of the fish generator (every slot typed by "
+              "the escape and quoting context it is written in) the token skeleton and final lexer state of the ENTIRE "
+              "generated file are the same for any two assignments of about/help/possible-value-help texts with the same "
+              "presence shape, and every text contributes literal payload only, for all command trees whose names "
+              "contain no quote, backslash or hash byte (boundary witness: an option name with a double quote).  The models are tied to clap_complete by running the extracted escape functions and the "
+              "real ones (hook) on the same strings and the extracted fish generator model and the real generator on the same trees (files compared byte for byte) on every check, and an independent oracle tokenises the real "
               "generated scripts (adversarial vs innocuous text in every slot) and compares token skeletons.")
-LEVEL_NOTE = ("Trusted: Coq kernel, extraction, OCaml driver, Rust harness, generators, the shell lexer models (only "
+LEVEL_NOTE = ("Trusted: Coq kernel, extraction, OCaml drivers, Rust harness, generators, the shell lexer models (only "
               "bash can be executed here), the table translator.  Which slot is emitted through which escape "
-              "function is checked on the real scripts only (oracle), not proved.")
+              "function is proved for fish (generator model, tied byte for byte); for zsh, PowerShell, elvish and "
+              "nushell it is checked on the real scripts only (oracle), not proved.")
